@@ -108,6 +108,22 @@ Theorem C15_target_option_rejected :
 Proof. exact target_option_rejected_parse. Qed.
 Print Assumptions C15_target_option_rejected.
 
+(* ... through ANY of its option strings (add_argument("--b", "--b_alt") / ("--b", "-B")): ActionLink.__init__ re-points
+   every spelling of the replaced target action at the link action. *)
+Theorem C15_target_option_rejected_any_spelling :
+  forall (fn : nat -> list val -> option val) (classes : list cls) (ds : list decl) (ls : list link)
+         (env : list (key * val)) (argv : list item) (a : alink) (v : val),
+    let p := fst (build ds ls) in
+    In a (p_links p) -> al_kind a = TgtPlain ->
+    In (Opt (al_tgt a) v) argv \/ In (OptAlias (al_tgt a) v) argv ->
+    exists e, parse fn classes p (InArgs env argv) = Err e.
+Proof. exact target_option_rejected_any_spelling. Qed.
+Print Assumptions C15_target_option_rejected_any_spelling.
+
+Example C15_target_alias_rejected_as_linked :
+  parse wfn [] (fst (build ex_decls ex_links)) (InArgs [] [OptAlias [sA] (VInt 3); OptAlias [sT] (VInt 5)]) = Err ELinked.
+Proof. exact ex_alias_rejected. Qed.
+
 Example C15_target_option_rejected_as_linked :
   parse wfn [] (fst (build ex_decls ex_links)) (InArgs [] [Opt [sA] (VInt 3); Opt [sT] (VInt 5)]) = Err ELinked.
 Proof. exact ex_option_rejected. Qed.
